@@ -309,7 +309,7 @@ func simpleTypes(c *vkit.Collector, rng *vkit.Rng, budget int) {
 		}
 		// Rect
 		{
-			v := cg.AnyRect(rng)
+			v := cg.ValidRect(rng)
 			b, err := cg.Enc(func(w *bytes.Buffer) error { return v.Encode(w) })
 			var q s2.Rect
 			derr := q.Decode(bytes.NewReader(b))
@@ -604,7 +604,7 @@ func latticeSweep(c *vkit.Collector, rng *vkit.Rng, budget int) {
 			j := rng.Intn(len(vs) + 1)
 			vs = append(vs[:j], append([]s2.Point{cg.LatticePoint(rng, face, level, rng.Intn(3))}, vs[j:]...)...)
 		}
-		p := s2.VerifC09PolygonRaw([]*s2.Loop{cg.RawLoop(rng, vs)}, false, cg.AnyRect(rng))
+		p := s2.VerifC09PolygonRaw([]*s2.Loop{cg.RawLoop(rng, vs)}, false, cg.ValidRect(rng))
 		check(p, "polygon:centres+lattice-point", r%4 == 0)
 	}
 }
